@@ -81,4 +81,58 @@ CHECKS = {
   "design_ref": "DESIGN.md section 3 C20, section 4 row 14",
   "note": "inputs between 1e-7 and 1e-3 are deliberately not generated (don't-care band of the property)",
  },
+ "C05": {
+  "technique": "history monitor on genhkl_all: recorded trace of the sintl/sysabs calls (the Le Page-Gabe row-walk) + brute-force lattice enumeration with the extinction rule taken from the group's own (R,t) operations (exact integers), all 237 settings per run",
+  "text": "For every setting, on conforming cells (incl. orthogonal-metric triclinic/monoclinic and special rhombohedral angles) and shells placed mid-gap between lattice radii, the multiset of rows returned by genhkl_all must equal the oracle set (none missing, extra, repeated), be identical by name and by number and under different numpy.random seeds, and for the 7 R groups agree between settings under the obverse transformation. A discrepancy is explained from the trace: only 'no member of the family was ever visited' in Laue -1, 2/m and rhombohedral -3/-3m that the frozen as-found visit sequence reproduces is the open finding C05-rowwalk-early-exit; anything else is a VIOLATION. Reported the syscond table defects and the cubic hkk defect of the pinned tree (repaired by two fix: commits).",
+  "design_ref": "DESIGN.md section 3 C05/C06, section 4 rows 2-5",
+  "note": "oracle trusts the (R,t) tables, which are under the C04 invariant in the same run; shell bounds >= 1e-6 from any lattice radius; reach = sampled cells/shells per setting (237 settings every run)",
+ },
+ "C06": {
+  "technique": "same engine as C05 viewed per Laue family: orbits of the brute-force allowed set under the live table's rotations and inversion; column/ordering/boundary checks on the function's own numbers",
+  "text": "genhkl_unique must hold exactly one row of every allowed Laue family and nothing else; genhkl_all must be exactly the union of the families of those rows; both outputs sorted by column 4, column 4 equal to |h|_G*/2 (1e-9), integer indices, rows inside (sintlmin, sintlmax]; output_stl=False must give the same rows; sintlmax = sintl of a returned row keeps it and sintlmin = that value drops it. Missing families are excused only by the open finding C06-rowwalk-early-exit under the same three conditions as C05.",
+  "design_ref": "DESIGN.md section 3 C05/C06, section 4 row 5",
+  "note": "as C05",
+ },
+ "C07": {
+  "technique": "metamorphic post-condition on StructureFactor: the same call replayed with hR for the group's operations read from the live (C04-guarded) table, with -h, and on exactly-extinct h",
+  "text": "For every dictionary name (all 230 groups, R..h/R..r), general-position atoms with Uiso / positive-definite Uani / no ADP and random occupancies: |F(hR) - F(h) exp(-2 pi i h.t)| <= tol, |F(-h) - conj F(h)| <= tol, F = 0 on reflections the operator rule extinguishes; tol scaled by the total scattering power and the 6-digit thirds of the tables. Reported the R.beta.R defect of the pinned tree (repaired by a fix: commit). Held on K sampled (group, atoms, h).",
+  "design_ref": "DESIGN.md section 3 C07, section 4 row 6",
+  "note": _TB,
+ },
+ "C08": {
+  "technique": "post-condition on StructureFactor vs an explicit P1 sum written in the harness (own reciprocal metric, own Gaussian sum over the live table, own beta tensor, exact orbit bookkeeping with Fractions) + derived metamorphic checks",
+  "text": "F must equal sum over the distinct images of each atom of occ (f+f'+if'') T exp(2 pi i h.r) for general and special positions (exact multiplicity as symmulti, site-symmetrised tensors), Uiso/Uani/none, dispersion absent/full/partly None, hkl incl. 000, oblique cells; and be unchanged by lattice shifts, linear in occupancy, identical for Uiso and the equivalent tensor, and equal to the occupancy-weighted form-factor sum at 000 with zero displacement.",
+  "design_ref": "DESIGN.md section 3 C08",
+  "note": _TB,
+ },
+ "C13": {
+  "technique": "runtime contracts on epsilon_to_b / b_to_epsilon / ubi_to_u_and_eps (both modules) vs the harness' own T = B0.inv(B) algebra + round trips of both pairs; mechanism classifier for the open 2 pi finding",
+  "text": "b_to_epsilon must equal sym(B0 inv(B)) - I with B0 from the harness' metric, epsilon_to_b must equal inv(T(eps)) B0, both pairs (new and _old) must be mutual inverses in both directions, zero strain must give B0, and ubi_to_u_and_eps on the module's own UBI of (U, strained B) must return (U, eps) incl. exact two-fold rotations. xfab.tools returns 2pi(eps+I)-I: open finding C13-tools-ubi-eps-2pi (pinned by an existing test), recognised only by that formula with a correct U in tools.",
+  "design_ref": "DESIGN.md section 3 C13, section 4 row 9",
+  "note": _TB,
+ },
+ "C14": {
+  "technique": "differential monitor: every function defined in both modules (enumerated at run time, 41) is issued the same generated input in tools and laue; results compared after the documented 2 pi factor; genhkl* under a common numpy seed",
+  "text": "41 functions x generated inputs of C01-C03, C05, C06, C09, C13: tools' result must equal factor x laue's (factor 2 pi for B-valued results, 1 otherwise; B-like arguments and g-vectors scaled on the way in), exceptions must coincide; a function with fewer than 20 pairs makes the run inconclusive. The strain part of ubi_to_u_and_eps differs: open finding C14-ubi-eps-2pi (same defect as C13).",
+  "design_ref": "DESIGN.md section 3 C14, section 4 row 9",
+  "note": _TB,
+ },
+ "C15": {
+  "technique": "post-condition on every multiplicity call vs the exact rational orbit count (Fractions over the operations of the live, C04-guarded table); complete 12^3 grid x 237 settings in the thorough tier",
+  "text": "multiplicity(position, group) must equal |{R p + t mod 1}| for every setting by number+setting and by name, on the rational grid of the property (thorough: complete, 410k calls), the x,x,z / x,2x,z / x,-x,z / 0,0,z / 1/3,2/3,z families with generic x, positions given as floats, shifted by lattice vectors, as list/tuple/array. Reported the transposed-rotation / one-sided-modulo defect of the pinned tree (91 settings; repaired by a fix: commit).",
+  "design_ref": "DESIGN.md section 3 C15, section 4 row 10",
+  "note": "exact arithmetic; float coordinates identified with the rational they were generated from (|diff| <= 1e-15); tables trusted via the C04 invariant",
+ },
+ "C17": {
+  "technique": "post-conditions on build_atomlist.CIFread / PDBread over generated files; the oracle is the generator's own record of what it wrote",
+  "text": "Generated CIFs (any of the 237 tabulated symbols with blanks, esds, 1-12 atoms, Uiso/Uani/Biso/Bani/absent per atom, permuted aniso loop, occupancy and multiplicity columns present/absent in both spellings, atom-type loop full/without dispersion/absent, global block before/after) and PDBs (75 symbols in PDB spacing incl. all chiral groups, fixed columns, SCALE with translation, HETATM, ANISOU noise): every field of the resulting atom list must equal the record; computed multiplicities must equal the orbit count; PDB symbols must be blank-free, be the file's tokens with or without place-holder 1s and resolve to the stated group. Reported the PDB '1'-dropping defect of the pinned tree (repaired by a fix: commit).",
+  "design_ref": "DESIGN.md section 3 C17, section 4 row 12",
+  "note": "PyCifRW is trusted to parse what the generator writes; approximately special positions (images between 1e-7 and 1e-3 apart) are not judged for multiplicity",
+ },
+ "C18": {
+  "technique": "post-condition on reduce_cell + spy on the module's a_to_cell recording the chosen lattice vectors; oracles: exhaustive successive minima and integer unimodular equivalence search; mechanism classifier for the open transposition finding",
+  "text": "Volume must be preserved; the vectors handed to a_to_cell must be lattice vectors of index 1 with the successive-minima lengths (exhaustive box enumeration); the returned metric must be N'GN for an integer unimodular N with edges equal to the successive minima. For non-axis-aligned reduced bases the returned metric is R'R instead of RR': open finding C18-transposed-basis (pinned by an existing test), recognised only when R passes every check and the result equals R'R; on orthogonal inputs the whole property is required.",
+  "design_ref": "DESIGN.md section 3 C18, section 4 row 13",
+  "note": "cases whose successive minima are not reachable within |u|,|v|,|w| <= 2 are skipped (the property's range condition)",
+ },
 }
